@@ -452,13 +452,11 @@ def run(rep):
            if not diff else {'differing_cases': [
                {'case': k, 'python': ptable[k], 'c': ctable.get(k)} for k in diff[:4]]},
            construct='tables-equal')
-    hpy = bool(find_all(methods_of(ib)['__hash__'], 'hash((self.__name__, self.__module__))'))
-    g = ccfg(u.func('IB__hash__'))
-    pk = [c for n in g.nodes for c in node_calls(n, 'PyTuple_Pack')]
-    hc = len(pk) == 1 and [show(a) for a in pk[0].a[1]] == \
-        ['2', 'self->__name__', 'self->__module__']
-    ccheck(rep, 'F6', 'IB__hash__', hpy and hc,
-           'both hash the tuple (name, module) (%s/%s)' % (hpy, hc), construct='hash')
+    hpy = c12.py_hash_key(methods_of(ib)['__hash__'])
+    hc = c12.c_hash_key(u)
+    ccheck(rep, 'F6', 'IB__hash__', not hpy and not hc,
+           'both hash the tuple (name, module) on a memo miss and return the '
+           'memo (py: %s / c: %s)' % (hpy[:2], hc[:2]), construct='hash')
     from . import C14 as c14
     pt = c14.py_call_table(ib)
     ct = c14.c_call_table(u)
